@@ -21,6 +21,15 @@ Two more families widen "the target path" and "a persisted application is saved"
     directory), a symbolic link to a file elsewhere, a dangling symbolic link;
   * how the application is persisted: Persistent style "pickle" or "source"
     (setStyle), default name, tagged name (save(tag=...)) or explicit filename.
+One more family widens "partial write length" from the crash case to the live
+one:
+  * short writes: a kernel write accepts only part of its buffer and returns the
+    count WITHOUT failing (disk or quota filling up in the middle of the buffer,
+    RLIMIT_FSIZE); a buffered file object then writes the rest with further
+    kernel writes - the next one succeeds, or fails with ENOSPC/EFBIG/EDQUOT/EIO
+    - while a raw (buffering=0) one hands the short count to its caller.  The
+    executions with a short write, and the crash points after it, are inspected
+    like those of the errno family.
 An operation that reports failure (raises) is held to the same old-or-new
 oracle as a crashed one; one that returns normally must have stored the new
 content.
@@ -39,12 +48,12 @@ from detsim import fs as simfs
 ID = "C52"
 ENGINE = "fs"
 LEVEL = "fault_enumeration"
-TECHNIQUE = "deterministic simulation: crash at every interposed filesystem call (+ torn writes, + after an injected errno failure) of seeded replacement cases, old-or-new oracle"
+TECHNIQUE = "deterministic simulation: crash at every interposed filesystem call (+ torn writes, + after an injected errno failure, + after a short kernel write) of seeded replacement cases, old-or-new oracle"
 QUICK_RUNS = 4000
 BATCH = 20
 COMPONENTS = {"real": ["twisted.python.filepath.FilePath.setContent/temporarySibling/create/open", "twisted.persisted.sob.Persistent.save/_saveTemp/setStyle (pickle and source styles, tag / filename naming)",
                        "the real filesystem under a scratch directory (reads; hard links, symbolic links and st_nlink are the real ones)", "twisted.persisted.aot.jellyToSource (source style)"],
-              "stub": ["process/kernel boundary for mutating calls (detsim.fs interposer: crash points, torn writes, user-space buffer loss)",
+              "stub": ["process/kernel boundary for mutating calls (detsim.fs interposer: crash points, torn writes, user-space buffer loss, short kernel writes)",
                        "filepath.randomBytes (deterministic temp names)"]}
 RULE = ("run = one tape-drawn case (API variant, for Persistent its style pickle/source and tagged or untagged name, target exists or not, kind of the target's directory entry "
         "(one-name file / second hard link in the same or another directory / symbolic link to a file elsewhere / dangling symbolic link), old/new content sizes 0..20 KiB (0..5 KiB for source style, whose stored form is up to 4x as long), "
@@ -54,18 +63,25 @@ RULE = ("run = one tape-drawn case (API variant, for Persistent its style pickle
         "with the errno family on, additionally every non-write call fails once with each of the run's 3 open-class / 2 rename-class errnos and the first, the last and one drawn kernel write "
         "fail with the run's write errno - each such failed-call execution is inspected (raised: old-or-new; returned: new content), followed by the two saves, and then re-run with a crash "
         "at every call (and torn length) the operation makes after the failed one; "
+        "with the short-write family on (3 runs in 10), one drawn kernel write of at least 2 bytes accepts only 1, half and all but one of its bytes, the first and the last kernel write one of "
+        "these lengths, each once with the following kernel write succeeding and once with it failing with the run's errno (ENOSPC/EFBIG/EDQUOT/EIO) - a buffered file writes the rest "
+        "itself, a raw one returns the short count; each such execution is inspected (returned: new content, complete; raised: old-or-new), followed by the two saves, and for one drawn "
+        "accepted length re-run with a crash at every call after the short write (torn lengths 0 and len/2); "
         "non-trivial = at least 3 crash points enumerated, including a torn write (a near-limit name for which the temporary cannot be created gives a trivial run on the unchanged tree: "
         "the operation refuses before touching anything)")
 ASSUMPTIONS = ["POSIX rename() is atomic and data handed to write() before a crash survives (process crash, not power loss; the property and the code make no fsync claim)",
                "a crash loses everything still in the process's user-space file buffer",
                "an injected errno failure has no effect on the filesystem (the failed call did nothing; a failed kernel write wrote nothing) and the exception reaches the calling code as OSError(errno)",
+               "a short kernel write stores exactly the accepted prefix and raises nothing (POSIX write(2)); a buffered file object keeps issuing kernel writes for the rest until all is accepted "
+               "or one raises (io.BufferedWriter), an unbuffered one returns the count of its single kernel write (io.FileIO); the condition that cut the write short makes at most the next kernel "
+               "write fail; as for errno faults, the bytes of a buffered chunk whose kernel write raises are dropped",
                "the statement speaks of the target path only: no verdict on what the OTHER names of a hard-linked target, or the file a symbolic-link target pointed to, hold afterwards "
                "(they are set up by the harness, are not counted as left-behind files, and the target is always read the way a reader would: through the path, following links)",
                "no verdict on whether an operation SUCCEEDS for a target name within 40 bytes of NAME_MAX (it may refuse with OSError because its temporary name does not fit) - only old-or-new is demanded "
                "of a refusal; for every other name a fault-free operation must succeed. The errno is injected at the interposer, the real directory stays writable (the harness runs as root, so mode "
                "bits cannot produce EACCES for real)"]
 LEVEL_TEXT = ("Exhaustive enumeration of crash points (every interposed mutating call, plus torn lengths for every kernel write) for each sampled case, and of the crash points "
-              "that follow each injected errno failure; cases (contents, name length, which errnos, which writes fail) are sampled by seed. The right level because the property "
+              "that follow each injected errno failure or short kernel write; cases (contents, name length, which errnos, which writes fail or are cut short and at which lengths) are sampled by seed. The right level because the property "
               "quantifies over crash points, which are finite per case.")
 
 
@@ -506,6 +522,9 @@ MUTANTS = [
     "sob.save: same two-step replacement but the backup is removed at the end (nothing left behind): caught, old-or-new:sob.save+source+tag@rename",
     "setContent: a symlinked target is rewritten in place through the link: caught, has-crash-points / old-or-new:setContent+symlink@write",
     "sob._getFilename: tagged save uses the untagged scratch name <name>-2.<ext>: caught, only-temporaries-left:sob.save+source+tag@write",
+    "seeded C52-r5a-create-unbuffered-partial-write (FilePath.create returns a raw buffering=0 file, setContent ignores the count write() returns): caught, "
+    "error-then-success-new-content:setContent@short-write / setContent-ext@short-write (short-write family)",
+    "sob._saveTemp: scratch file opened with buffering=0 (pickle / jellyToSource ignore the count write() returns): caught, error-then-success-new-content:sob.save-filename@short-write",
     "setContent: for a dangling-symlink target the sibling is renamed onto the link's destination instead of over the link: NOT flagged, correctly - the target path "
     "reads absent-or-new at every crash point",
 ]
